@@ -63,11 +63,7 @@ class World:
                                    days=slot("days"), seconds=slot("seconds"), microseconds=slot("microseconds"),
                                    **{"__new__": self._td_new})
         self.duration_cls = ClassStub(_new=self.ctor, _isa=lambda v: isinstance(v, Obj))
-        consts: dict[str, Any] = {}
-        for st in m.tree.body:
-            if isinstance(st, ast.ImportFrom) and st.module == "pendulum.constants":
-                for a in st.names:
-                    consts[a.asname or a.name] = core.const("constants", a.name)
+        consts = minieval.module_consts(m)
         self.glob: dict[str, Any] = {st.name: st for st in m.top() if isinstance(st, ast.FunctionDef)}
         self.glob["$globals"] = {**consts, "timedelta": self.timedelta, "Duration": self.duration_cls, "NotImplemented": NotImplemented,
                                  "PYPY": False, "ValueError": ValueError, "TypeError": TypeError, "int": int, "float": float}
